@@ -1029,7 +1029,7 @@ pub fn check_cellsim(property: &str, tier: &str) -> i32 {
         )
     } else {
         (
-            "One run = one shuttle execution (2-3 tasks x 1-4 pre-built operations on the shared world, or 2-3 tasks executing one shared Code) under one seeded scheduler (uniform random, sticky random, PCT depth 1-4) and one hash-key seed; every acquire/release of a cell's lock is a scheduling point. Oracles: deadlock (all tasks blocked), panic, per-cell linearizability of the recorded history (Wing-Gong against the sequential cell model, final contents included), declared-type check of every cell, equality with the sequential run for shared Code. distinct_nontrivial = distinct interleavings, measured as distinct digests of the per-run sequence of (task, lock, lock-event).",
+            "One run = one shuttle execution (2-3 tasks x 1-4 pre-built operations on the shared world, or 2-3 tasks executing one shared Code) under one seeded scheduler (uniform random, sticky random, PCT depth 1-4) and one hash-key seed; every acquire/release of a cell's lock is a scheduling point. A fifth family (handshake) runs pollers against signallers under the fair random policy: once the last signaller has finished, a polling loop that starts more than eight further iterations is `no-progress`. Oracles: deadlock (all tasks blocked), panic, per-cell linearizability of the recorded history (Wing-Gong against the sequential cell model, final contents included), declared-type check of every cell, equality with the sequential run for shared Code. distinct_nontrivial = distinct interleavings, measured as distinct digests of the per-run sequence of (task, lock, lock-event).",
             sched.len() as u64,
         )
     };
@@ -1226,7 +1226,7 @@ pub fn check_ossim(property: &str, tier: &str) -> i32 {
     } else {
         (
             "exploration",
-            "One run = seeded initial file tree (files incl. non-UTF-8, directories, nesting) + 1-8 calls of std.fs.* / std.io.cgetline / print / print_array over a 12-path universe (missing, file-as-directory, NUL, over-long, './', '//'), each through the host API or a generated SimpleSL program, with an explicit fault plan (18 errno kinds, before-effect or torn) keyed by OS-call index; fault-free and fault-injecting runs alternate. Every 16th run also calls every other export once with seeded boundary arguments (workload only: the pure-function part of C18 gets just this sample from this technique). Oracles per call: no panic, value in declared result type, OS failure => struct{error_code,msg} with the OS error's kind and text, success value agrees with the OS result, exactly one OS call with arguments in their documented roles; afterwards every path is read back through the library and compared with the tree. distinct_nontrivial = distinct (function, file-system state class, fault kind) triples reached.",
+            "One run = seeded initial file tree (files incl. non-UTF-8, directories, nesting) + 1-8 calls of std.fs.* / std.io.cgetline / print / print_array over a 12-path universe (missing, file-as-directory, NUL, over-long, './', '//'), each through the host API or a generated SimpleSL program, with an explicit fault plan (18 errno kinds, before-effect or torn) keyed by OS-call index; fault-free and fault-injecting runs alternate. Every 16th run also calls every other export once with seeded boundary arguments (workload only: the pure-function part of C18 gets just this sample from this technique). One fault-injecting run in six carries a STICKY failure (every OS call from an index on fails with one errno: a state, not an event). Oracles per call: no panic, value in declared result type; without a fault in flight the value and the file tree afterwards equal those of the documented operation applied to the pre-state by the model; with a fault the error struct is that of an OS call that failed in this invocation and a success carries data of the last OS call; a call that repeats a failing OS call 1000 times is `no-progress`; afterwards every path is read back through the library and compared with the tree. 50 runs per worker execute the library UNHOOKED in a real scratch directory (plain worlds compared with the simulated run, odd worlds - non-UTF-8 names, symbolic links, removed working directory - judged for panics and types). Odd boot seeds run with a bare process environment. The whole check is repeated on 25% of the budget by an overflow-checked build. distinct_nontrivial = distinct (function, file-system state class, fault kind) triples reached.",
             false,
         )
     };
@@ -1247,7 +1247,7 @@ pub fn check_ossim(property: &str, tier: &str) -> i32 {
         "boot_seeds": boots,
         "worker_processes": boots * shards,
         "unconfirmed_candidates": unconfirmed,
-        "real_vs_stub": {"real": ["#[export] glue", "From<io::Result<T>> / From<io::Error> for Variable", "TypeOf-derived signatures", "create_call / call instruction", "LocalVariables::load (import)", "parser + checker"], "stub": ["std::fs -> in-memory tree with Linux errno semantics (validated against real std::fs on fault-free sequences: see probes.validated_against_real_fs)", "io::stdin -> scripted", "println! -> captured"]},
+        "real_vs_stub": {"real": ["#[export] glue", "From<io::Result<T>> / From<io::Error> for Variable", "TypeOf-derived signatures", "create_call / call instruction", "LocalVariables::load (import)", "parser + checker"], "stub": ["std::fs -> in-memory tree with Linux errno semantics (validated against real std::fs on fault-free sequences: see probes.validated_against_real_fs)", "io::stdin -> scripted", "println! -> captured", "process environment -> bare for odd boot seeds", "nothing stubbed in the unhooked real-directory runs (real std::fs in a scratch directory)"]},
         "exhaustive": exhaustive,
     });
     finish(Report {
@@ -1374,7 +1374,7 @@ pub fn check_replsim(property: &str, tier: &str) -> i32 {
     let coverage = json!({
         "evaluations": n,
         "distinct_nontrivial": hist.len(),
-        "rule": "One run = one host history against one Interpreter::with_stdlib(): a session (hand-written sessions on cells, closures, shadowing, modules, iterators, recursion, own-name parameters; the repo's example scripts and README blocks; one third with identifiers redrawn from a 3-name pool) split into REPL inputs of seeded sizes, interleaved with `exec()` of programs parsed against the live interpreter, plus a self-contained program executed three times, plus host calls vs in-language calls (well-typed, ill-typed, too short, too long argument vectors) on every function the session bound - all under the run's hash keys. Reference: the batch route for every prefix at which an input ended. distinct_nontrivial = distinct histories (digest of inputs, results and calls).",
+        "rule": "One run = one host history against one Interpreter::with_stdlib(): a session (hand-written sessions on cells, closures, shadowing, modules, iterators, recursion, own-name parameters; the repo's example scripts and README blocks; one third with identifiers redrawn from a 3-name pool) split into REPL inputs of seeded sizes, interleaved with `exec()` of programs parsed against the live interpreter, plus a self-contained program executed three times, plus host calls vs in-language calls (well-typed, ill-typed, too short, too long argument vectors; every other pair executed UNSCOPED on its interpreter) on every function the session bound - all under the run's hash keys. Reference: the batch route for every prefix at which an input ended. distinct_nontrivial = distinct histories (digest of inputs, results and calls).",
         "samples": samples,
         "simulated_time_events": counters.get("events"),
         "probes": counters,
